@@ -379,6 +379,7 @@ S.gather = lambda a, dim, index: gather(a, dim, index)
 S.requires_grad_ = lambda a, flag=True: (setattr(a, "requires_grad", flag), a)[1]
 S.detach_ = lambda a: (setattr(a, "requires_grad", False), a)[1]
 S.squeeze_ = lambda a, *d: (_ for _ in ()).throw(Unsupported("squeeze_"))
+S.flip = lambda a, *dims: flip(a, dims[0] if len(dims) == 1 and isinstance(dims[0], (tuple, list)) else dims)
 S.norm = lambda a, p=2, dim=None, keepdim=False: norm(a, p, dim, keepdim)
 S.prod = lambda a, dim=None, keepdim=False: prod(a, dim, keepdim)
 S.mean = lambda a, dim=None, keepdim=False: mean(a, dim, keepdim)
